@@ -249,7 +249,7 @@ func execC19(c C19Case, bound time.Duration) (facts map[string]bool, err error) 
 		go func() { done <- svc.DoListen(ctx, 0) }()
 		ok, msg := c19RoundTrip(svc, token, a, modelAddress(a), false, done, bound)
 		dl := time.Now().Add(bound)
-		for svc.VerifActiveConnections() != 0 && time.Now().Before(dl) {
+		for activeConns(svc) != 0 && time.Now().Before(dl) {
 			time.Sleep(100 * time.Microsecond)
 		}
 		shutdown()
@@ -337,7 +337,7 @@ func execC19(c C19Case, bound time.Duration) (facts map[string]bool, err error) 
 		}
 		err = nil
 		defer linger.Close()
-		for dl := time.Now().Add(bound); svc.VerifActiveConnections() != 1 && time.Now().Before(dl); {
+		for dl := time.Now().Add(bound); activeConns(svc) != 1 && time.Now().Before(dl); {
 			time.Sleep(100 * time.Microsecond)
 		}
 		shutdown()
@@ -508,7 +508,7 @@ func execC19(c C19Case, bound time.Duration) (facts map[string]bool, err error) 
 			}
 			endOld()
 			dl := time.Now().Add(bound)
-			for svc.VerifActiveConnections() != 0 && time.Now().Before(dl) {
+			for activeConns(svc) != 0 && time.Now().Before(dl) {
 				time.Sleep(100 * time.Microsecond)
 			}
 			shutdown()
